@@ -11,7 +11,18 @@ LEAVES = {"X": ("a", "b", "v"), "Y": ("a", "b", "v"), "Z": ("a", "d"), "I": (),
           # P and Q have the same columns, created in different orders; the tags a and i collide in small hash tables, so
           # the two frozensets iterate in different orders (UNION is positional)
           "P": ("a", "i"), "Q": ("i", "a")}  # I: the engine's join-identity relation
+# W: a leaf whose table - and payload.columns_available - offers a column (b) that the relation itself does not have
+LEAVES["W"] = ("a", "d")
+TABLE_EXTRA = {"W": ("b",)}
 LEAFCOLS = dict(LEAVES)
+from . import prog as _prog
+_prog.DECLARED_COLS.update({k: LEAVES[k] for k in TABLE_EXTRA})
+
+
+def table_cols(name):
+    """Columns of the database table behind a leaf (the relation's columns plus what else its payload offers)."""
+    return tuple(LEAVES[name]) + tuple(TABLE_EXTRA.get(name, ()))
+
 A, B, V, D = ("ref", "a"), ("ref", "b"), ("ref", "v"), ("ref", "d")
 
 OPS1 = ("dedup", "sort total", "proj -b", "proj -v", "proj a", "sel a>k", "calc d", "sel false", "proj none")
@@ -195,6 +206,11 @@ def nested_programs(tier, hi):
     progs += [("calc", ("proj", ("sort", X, ((B, True),)), ("a",)), "v", ("neg", A)),
               ("slice", ("calc", ("proj", ("sort", X, ((B, True), (A, True), (V, True))), ("a", "b")), "v", ("neg", A)), 0, 1),
               ("calc", ("proj", ("sort", ("sel", X, K), ((V, False),)), ("a",)), "b", ("add", A, A))]
+    # a join partner whose payload offers a column (b) it does not expose: every output column comes from an operand exposing it
+    Wd = ("leaf", "W")
+    progs += [("join", X, Wd, None), ("join", Wd, X, None), ("join", X, ("sel", Wd, K), ("lt", B, D)), ("dedup", ("join", ("proj", X, ("a", "b")), Wd, None)),
+              ("chain", ("proj", ("join", X, Wd, None), ("a", "b", "v")), Y), ("join", Wd, W, None), ("join", ("join", X, Z, None), Wd, None),
+              ("sel", ("join", Wd, X, None), ("lt", B, D)), ("slice", ("sort", ("join", X, Wd, None), ((A, True), (B, True), (V, True), (D, False))), 0, 2)]
     out = [(p, {"$k": [None, None]} if "$k" in repr(p) else {}, []) for p in progs]
     W2 = ("slice", ("sort", X, TOT), "$s1", "$e1")
     for top in (TOT2, TOT3):
@@ -209,9 +225,9 @@ def setup_leaves(ctx, env, prog, n):
         if name == "I":
             env.add_special_leaf("I", "identity", "sq")
             continue
-        tab, _ = relmodel.leaf_symbolic(name, LEAVES[name], n, ordered=False)
+        tab, _ = relmodel.leaf_symbolic(name, table_cols(name), n, ordered=False)
         common.register_table(ctx, tab)
-        env.add_sql_leaf(name, LEAVES[name], n, table=tab)
+        env.add_sql_leaf(name, LEAVES[name], n, table=tab, extra=TABLE_EXTRA.get(name, ()))
 
 
 def history(env, prog):
@@ -234,7 +250,7 @@ def history(env, prog):
                 env.add_special_leaf("I", "identity", "sq")
                 continue
             tags = [env.tags[c] for c in LEAVES[name]]
-            ca = {t: sa.Column(t.qualified_name, sa.Integer) for t in tags}
+            ca = {env.tags[c]: sa.Column(c, sa.Integer) for c in table_cols(name)}
             tbl = sa.Table("old_" + name, md, *ca.values())
             env.leaves[name] = env.engines["sq"].make_leaf(frozenset(tags), payload=sql.Payload(from_clause=tbl, columns_available=ca),
                                                            name=name)
@@ -260,7 +276,7 @@ def concrete_env(prog, bind):
         if name == "I":
             env.add_special_leaf("I", "identity", "sq")
             continue
-        env.add_sql_leaf(name, LEAVES[name], 0, table=Tab([], LEAVES[name], False))
+        env.add_sql_leaf(name, LEAVES[name], 0, table=Tab([], table_cols(name), False), extra=TABLE_EXTRA.get(name, ()))
     history(env, prog)
     return env
 
@@ -305,6 +321,7 @@ BATTERY = {
     "X": [{"a": 1, "b": 1, "v": 5}, {"a": 1, "b": 2, "v": 5}, {"a": 2, "b": 1, "v": 7}, {"a": 1, "b": 1, "v": 5}],
     "Y": [{"a": 1, "b": 1, "v": 5}, {"a": 2, "b": 2, "v": 7}, {"a": 3, "b": 1, "v": 9}],
     "Z": [{"a": 1, "d": 2}, {"a": 2, "d": 1}, {"a": 1, "d": 3}, {"a": 4, "d": 0}],
+    "W": [{"a": 1, "d": 2, "b": 8}, {"a": 2, "d": 1, "b": 9}, {"a": 1, "d": 3, "b": 7}],
     "P": [{"a": 1, "i": 10}, {"a": 2, "i": 20}],
     "Q": [{"a": 3, "i": 30}, {"a": 1, "i": 10}],
 }
@@ -325,7 +342,7 @@ def validate_model(prog, params):
         rel, ex, got, env = run_real_sql(prog, bind, BATTERY)
     except Exception as e:  # noqa: BLE001 - construction/compile/database failure: not this function's business
         return None
-    db = {k: concrete_tab(BATTERY[k], LEAVES[k]) for k in env.leaves if k != "I"}
+    db = {k: concrete_tab(BATTERY[k], table_cols(k)) for k in env.leaves if k != "I"}
     try:
         mt = strip_ignored(sqlmodel.select(ex, db))
         mrows = model_rows(mt)
